@@ -307,4 +307,6 @@ class Parser(object):
         # type: (str) -> ProgramNode
         """ Parses the source text into a program structure """
 
+        self.lexer.lineno = 1
+
         return self.parser.parse(source, lexer=self.lexer, tracking=True)
